@@ -102,6 +102,17 @@ class Events(ast.NodeVisitor):
                 self.ev.append(("R", key_of(p[:-1]), n))
                 self.ev.append(("M", key_of(p[:-1]), n))
                 return
+        # getattr(self, "name"[, default]) / hasattr(self, "name") read the attribute (a default does not make the read
+        # harmless: what a previous run left there is then used); setattr(self, "name", v) with a literal name writes it
+        if isinstance(f, ast.Name) and f.id in ("getattr", "hasattr") and len(n.args) >= 2 and isinstance(n.args[1], ast.Constant) and isinstance(n.args[1].value, str):
+            tp = attr_path(n.args[0]) if isinstance(n.args[0], (ast.Attribute, ast.Name)) else None
+            if tp == ("self",) or (isinstance(n.args[0], ast.Name) and n.args[0].id == "self"):
+                self.ev.append(("R", (n.args[1].value,), n))
+                return
+        if isinstance(f, ast.Name) and f.id == "setattr" and len(n.args) == 3 and isinstance(n.args[0], ast.Name) and n.args[0].id == "self" \
+                and isinstance(n.args[1], ast.Constant) and isinstance(n.args[1].value, str):
+            self.ev.append(("W", (n.args[1].value,), n))
+            return
         if isinstance(f, ast.Name) and f.id == "setattr" and len(n.args) == 3:
             tp = attr_path(n.args[0])
             if tp and tp[0] == "self":
@@ -489,6 +500,12 @@ def run(prog, pid, clauses):
             for n in ast.walk(fref.node):
                 if isinstance(n, (ast.Global, ast.Nonlocal)):
                     bad.append("%s declares %s at %s" % (m, type(n).__name__.lower(), view.where(fref, n)))
+                # the logging configuration is process-global (basicConfig acts once per process, the root logger is shared):
+                # logging may be WRITTEN to, its state must not steer the parser
+                if isinstance(n, ast.Call) and isinstance(n.func, ast.Attribute) and n.func.attr in ("isEnabledFor", "getEffectiveLevel", "hasHandlers"):
+                    bad.append("%s consults the process-global logging state (%s) at %s" % (m, n.func.attr, view.where(fref, n)))
+                if isinstance(n, ast.Attribute) and isinstance(n.ctx, ast.Load) and n.attr in ("level", "handlers", "disabled", "manager") and attr_path(n) and attr_path(n)[0] in ("log", "logger", "logging"):
+                    bad.append("%s consults the process-global logging state (.%s) at %s" % (m, n.attr, view.where(fref, n)))
                 if isinstance(n, ast.Attribute) and isinstance(n.ctx, ast.Store):
                     p = attr_path(n)
                     if p and p[0] not in ("self", "t", "p") and p[0] in prog.imports.get(fref.module, {}):
@@ -847,6 +864,10 @@ def run(prog, pid, clauses):
                     tgt, val = st.target.id, st.value
                 if tgt and isinstance(val, (ast.Dict, ast.List, ast.Set)):
                     shared[(mod, tgt)] = (st.lineno, nested_mutable(val))
+                elif tgt and isinstance(val, ast.Call) and (getattr(val.func, "id", None) or getattr(val.func, "attr", None)) in (
+                        "dict", "list", "set", "defaultdict", "OrderedDict", "Counter", "deque", "WeakValueDictionary", "WeakKeyDictionary"):
+                    # a container built by a call (defaultdict(int), OrderedDict(), ...): a process-wide mutable object all the same
+                    shared[(mod, tgt)] = (st.lineno, True)
             for cd in [n for n in ast.walk(tree) if isinstance(n, ast.ClassDef)]:
                 for st in cd.body:
                     tgt, val = None, None
